@@ -4,7 +4,7 @@ distinct figures per mapping, optional smaps lines on/off, roll-up present / abs
 refused; reference = sums over the mapping list."""
 import itertools
 
-from vf.harness import use_world, outcome, freeze, sample, guarded, add_histories, history_of
+from vf.harness import use_world, outcome, freeze, sample, guarded, add_histories, history_of, LongLived
 from vf.simk.world import World, Mapping, PAGESIZE, SMAPS_KEYS
 
 ID = "C13"
@@ -63,7 +63,7 @@ def ref(w, maps):
     return uss, pss, swap, rows, grouped
 
 
-def run_case(case, st):
+def _run_case(case, st):
     import psutil
     w, p = st
     k = case[0]
@@ -72,7 +72,7 @@ def run_case(case, st):
     p.maps, p.rollup, p.denied = [], True, set()
     psutil._pslinux.HAS_PROC_SMAPS_ROLLUP = True
     psutil._TOTAL_PHYMEM = None
-    pr = psutil.Process(p.pid)
+    pr = LongLived.get(psutil, w, p.pid)
     if k == "statm":
         p.statm = tuple(case[1])
         got = outcome(pr.memory_info)
@@ -133,6 +133,10 @@ def run_case(case, st):
                 bad.append(("memory_percent:invalid-name-accepted", "memory_percent(%r) -> %r" % (name, freeze(got))))
         return bad
     return bad
+
+
+def run_case(case, st):
+    return LongLived.both(_run_case, case, st)
 
 
 def worker(chunk):
